@@ -40,6 +40,7 @@ type Config struct {
 	NoInit         []string
 	RunInit        []string
 	Summarize      []string // pure functions merged into ite-terms instead of forking
+	Replace        map[string]string // function (full SSA name) -> harness function (name in the harness package) used instead
 	Stub           []string // functions (full SSA names) replaced by "return zero values"
 	Reach          []string // labels that must be reached
 	SolverMs       int
@@ -146,6 +147,17 @@ func (c *Config) apply(opts []string) error {
 			c.RunInit = append(c.RunInit, strings.Split(v, ",")...)
 		case "summarize":
 			c.Summarize = append(c.Summarize, strings.Split(v, ",")...)
+		case "replace":
+			for _, kv := range strings.Split(v, ",") {
+				a, b, ok := strings.Cut(kv, "=>")
+				if !ok {
+					return fmt.Errorf("replace wants from=>to, got %q", kv)
+				}
+				if c.Replace == nil {
+					c.Replace = map[string]string{}
+				}
+				c.Replace[a] = b
+			}
 		case "stub":
 			c.Stub = append(c.Stub, strings.Split(v, ",")...)
 		case "reach":
@@ -175,6 +187,7 @@ type Engine struct {
 	silenceList    []string
 	known          []knownFinding
 	noSchedGlobals []*ssa.Global
+	replaceFns     map[string]*ssa.Function
 	concreteInputs map[string]any
 	errIface       *types.Interface
 }
@@ -346,6 +359,19 @@ func mustAbs(p string) string {
 		panic(err)
 	}
 	return a
+}
+
+// resolveReplace finds the harness functions named by replace= options.
+func (e *Engine) resolveReplace() error {
+	e.replaceFns = map[string]*ssa.Function{}
+	for from, to := range e.cfg.Replace {
+		f := findFunc(e.prog, e.pkgs, to)
+		if f == nil {
+			return fmt.Errorf("replace: harness function %q not found", to)
+		}
+		e.replaceFns[from] = f
+	}
+	return nil
 }
 
 // resolveNoSched maps the nosched= names to SSA globals.
